@@ -468,3 +468,39 @@ func TestDiff(t *testing.T) {
 	}
 	fmt.Println("no divergence in 20 tries")
 }
+
+// TestShow prints the event log of one generated scenario (VERIF_PROP, VERIF_SHOW=idx).
+func TestShow(t *testing.T) {
+	prop := os.Getenv("VERIF_PROP")
+	if prop == "" || os.Getenv("VERIF_SHOW") == "" {
+		t.Skip()
+	}
+	pd := Props[prop]
+	idx := envInt("VERIF_SHOW", 0)
+	seed := propSeed(uint64(envInt("VERIF_SEED", 1)), prop, idx)
+	sc := pd.Gen(seed, idx, "")
+	res, tr, own, cross := runAndCheck(t, pd, sc, nil)
+	fmt.Printf("arm=%s seed=%d\n", sc.Arm, seed)
+	if sc.Project != nil {
+		fmt.Println(sc.Project.Render("@TMP@"))
+	}
+	b, _ := json.Marshal(sc.Clients)
+	fmt.Println("clients:", string(b))
+	for i := range res.Log.Events {
+		e := &res.Log.Events[i]
+		if e.Kind == "obs.snap" {
+			if sn, ok := e.Data.(Snap); ok && os.Getenv("VERIF_SNAPS") != "" {
+				fmt.Printf("%s stable=%v %v\n", e.String(), sn.Stable, sn.States)
+			}
+			continue
+		}
+		fmt.Println(e.String())
+	}
+	_ = tr
+	for _, v := range own {
+		fmt.Println("OWN", v.Key(), v.Msg)
+	}
+	for _, v := range cross {
+		fmt.Println("CROSS", v.Key(), v.Msg)
+	}
+}
